@@ -21,13 +21,15 @@
 #include <stdint.h>
 
 /* ---- decoder representation invariant (C08) --------------------------------------------------- */
-#define RLE_MAX_BW 255                         /* bit width is one byte in the file formats that carry it */
+#define RLE_MAX_BW 255                         /* entry points: the width is one byte in the formats that carry it;
+                                                  widths > 32 are rejected by init/decode_levels (/repo fix), so a live
+                                                  decoder has bit_width <= 32 (RLE_DEC_INV) */
 #define RLE_MAX_RUN ((int64_t)1 << 34)         /* (2^31-1) groups * 8 */
 #define RLE_MAX_COUNT ((int64_t)1 << 37)       /* requested values: 4*count <= 2^39 < CQV_MAXBUF */
 
 #define RLE_DEC_INV(d) ( \
   (d)->size <= CQV_MAXBUF && (d)->pos <= (d)->size && \
-  (d)->bit_width >= 0 && (d)->bit_width <= RLE_MAX_BW && \
+  (d)->bit_width >= 0 && (d)->bit_width <= 32 && \
   (d)->bitpack_pos >= 0 && (d)->bitpack_pos <= (d)->bitpack_count && (d)->bitpack_count <= 8 && \
   (d)->run_remaining >= 0 && (d)->run_remaining <= RLE_MAX_RUN)
 
